@@ -772,7 +772,9 @@ class TaskScenario(ScenarioData):
             effort_before = self.doneEffort
             self.bookResources()
 
-            if self.doneEffort >= effort:
+            # Effort is accumulated in floating point: a remainder below a nanohour is rounding noise
+            # (0.7 + 0.7 + 0.7 < 2.1), not work that needs a further slot
+            if self.doneEffort >= effort - 1e-9:
                 # Finished - calculate precise end time within the final slot
                 # and release unused time for other tasks
                 end_date, _seconds_used = self._calculatePreciseEndTimeAndRelease(effort, effort_before, forward)
